@@ -8,6 +8,7 @@ import (
 	"strconv"
 
 	"github.com/mgtv-tech/redis-GunYu/config"
+	"github.com/mgtv-tech/redis-GunYu/pkg/log"
 	"github.com/mgtv-tech/redis-GunYu/pkg/redis/checkpoint"
 )
 
@@ -53,15 +54,15 @@ func VerifC17Migration() {
 	before, ok := verifResumeOf(f, old, fromMode)
 	verifAssert(ok && before == pos, "C17.migration.setup")
 	nSeed := len(f.log)
-	s := &syncer{}
+	s := &syncer{logger: log.WithLogger("[verif] ")}
 	desired := checkpoint.BisyncModeFromReplayMode(toMode)
 	name1, err := s.resolveBisyncCheckpointNameWithClient(f, []string{"rid1", ""}, desired, []uint16{0})
 	verifAssert(err == nil && name1 != old, "C17.migration.error")
-	log := f.log
-	verifObserve("reqs", int64(len(log)-nSeed))
-	for p := nSeed; p <= len(log); p++ {
-		nf := verifStateAfter(log, p)
-		name2, err := (&syncer{}).resolveBisyncCheckpointNameWithClient(nf, []string{"rid1", ""}, desired, []uint16{0})
+	reqLog := f.log
+	verifObserve("reqs", int64(len(reqLog)-nSeed))
+	for p := nSeed; p <= len(reqLog); p++ {
+		nf := verifStateAfter(reqLog, p)
+		name2, err := (&syncer{logger: log.WithLogger("[verif] ")}).resolveBisyncCheckpointNameWithClient(nf, []string{"rid1", ""}, desired, []uint16{0})
 		verifAssert(err == nil, "C17.migration.next-start-fails")
 		if err != nil {
 			continue
